@@ -1,4 +1,5 @@
 import Rtcm.Model.Message
+import Rtcm.Lemmas.Machine
 import Rtcm.Gen.Tables
 /-
   C13 — a parse result depends only on the bytes parsed, not on history or threads.
@@ -7,7 +8,16 @@ import Rtcm.Gen.Tables
   *implementation* behaves like this function is what the correspondence run checks (same payloads
   after different histories and from concurrent threads must all equal the model's single answer,
   and the translator's output must be identical before and after the workload).
-  PARTIAL: thread interleavings of CPython are sampled by the harness, not proved.
+  Threads: `Model/Machine.lean` is a small-step version of the constructor (one step = at most one
+  field, or one piece of group / optional control) and a pool of such threads run under an arbitrary
+  schedule over shared read-only tables.  `C13_threads_*` prove that in that pool no schedule —
+  any interleaving, any unfairness, any number of threads — changes what a thread computes: when it
+  has a result, it is `construct` of its own arguments, and every schedule that gives each thread
+  enough turns ends with exactly the sequential results.  What this rests on, and what a proof about
+  the model cannot establish, is that a step of the *implementation* touches only the instance and
+  its locals; the correspondence run samples exactly that (concurrent threads at a minimal switch
+  interval, tables digested before and after).  Interleavings finer than a field (CPython
+  bytecodes) are not modelled.
 -/
 namespace Rtcm
 
@@ -45,6 +55,89 @@ theorem C13_same_bytes_same_result (T : Tables) (h₁ h₂ : List Op) (i j : Nat
     (hi : h₁[i]? = some o) (hj : h₂[j]? = some o) :
     (runHistory T h₁).2[i]? = (runHistory T h₂).2[j]? := by
   simp [C13_history_independent, hi, hj]
+
+/-! ### threads -/
+
+/-- a pool of threads, each about to call `RTCMMessage(payload, labelmsm)` -/
+def jobs (js : List (Option Bytes × Nat)) : List TState := js.map fun j => .start j.1 j.2
+
+/-- whatever the schedule, a thread that has a result has the sequential result of its own
+    arguments: nothing the other threads did, and no order in which they did it, shows -/
+theorem C13_threads_noninterference (T : Tables) (js : List (Option Bytes × Nat)) (sched : List Nat)
+    (t : Nat) (j : Option Bytes × Nat) (hj : js[t]? = some j) (r : Outcome Msg)
+    (h : (poolRun T (jobs js) sched)[t]?.bind TState.result = some r) :
+    r = construct T j.1 j.2 := by
+  rw [pool_get] at h
+  simp only [jobs, List.getElem?_map, hj, Option.map_some, Option.bind_some] at h
+  exact thread_result T j.1 j.2 _ r h
+
+/-- a thread's state after a schedule depends only on the number of turns it had -/
+theorem C13_threads_only_own_turns (T : Tables) (js : List (Option Bytes × Nat)) (s₁ s₂ : List Nat)
+    (t : Nat) (h : s₁.count t = s₂.count t) :
+    (poolRun T (jobs js) s₁)[t]? = (poolRun T (jobs js) s₂)[t]? := by
+  rw [pool_get, pool_get, h]
+
+/-- every thread finishes: there is a number of turns after which, under every schedule that
+    gives each thread at least that many, all results are there and are the sequential ones -/
+theorem C13_threads_fair_schedules (T : Tables) (js : List (Option Bytes × Nat)) :
+    ∃ N, ∀ sched : List Nat, (∀ t, t < js.length → N ≤ sched.count t) →
+      (poolRun T (jobs js) sched).map TState.result = js.map fun j => some (construct T j.1 j.2) := by
+  -- a bound for every job
+  have hb : ∃ N, ∀ j ∈ js, ∀ n, N ≤ n →
+      (TState.steps T n (.start j.1 j.2)).result = some (construct T j.1 j.2) := by
+    induction js with
+    | nil => exact ⟨0, by simp⟩
+    | cons j rest ih =>
+      obtain ⟨N, hN⟩ := ih
+      obtain ⟨n₀, h₀⟩ := thread_finishes T j.1 j.2
+      refine ⟨max N n₀, ?_⟩
+      intro j' hj' n hn
+      rcases List.mem_cons.mp hj' with rfl | hm
+      · have : n = n₀ + (n - n₀) := by omega
+        rw [this, TState.steps_add]
+        cases hs : TState.steps T n₀ (.start j'.1 j'.2) with
+        | finished r =>
+          rw [hs] at h₀
+          rw [TState.steps_finished]; exact h₀
+        | start _ _ => rw [hs] at h₀; simp [TState.result] at h₀
+        | decoding _ _ _ _ => rw [hs] at h₀; simp [TState.result] at h₀
+      · exact hN j' hm n (by omega)
+  obtain ⟨N, hN⟩ := hb
+  refine ⟨N, fun sched hfair => ?_⟩
+  apply List.ext_getElem?
+  intro t
+  rw [List.getElem?_map, pool_get, List.getElem?_map]
+  simp only [jobs, List.getElem?_map]
+  cases hj : js[t]? with
+  | none => simp
+  | some j =>
+    have hlt : t < js.length := by
+      rcases Nat.lt_or_ge t js.length with h | h
+      · exact h
+      · rw [List.getElem?_eq_none h] at hj; cases hj
+    simp only [Option.map_some]
+    rw [hN j (List.mem_of_getElem? hj) _ (hfair t hlt)]
+
+/-- the pool never has more or fewer threads, and a step has no access to change the tables
+    (`tstep` takes them as an argument and returns only the thread) -/
+theorem C13_threads_pool_size (T : Tables) (js : List (Option Bytes × Nat)) (sched : List Nat) :
+    (poolRun T (jobs js) sched).length = js.length := by
+  simp [pool_length, jobs]
+
+/-- the small-step constructor is the constructor: run alone, a thread ends with `construct` -/
+theorem C13_small_step_is_construct (T : Tables) (payload : Option Bytes) (label : Nat) :
+    ∃ n, (TState.steps T n (.start payload label)).result = some (construct T payload label) :=
+  thread_finishes T payload label
+
+/-- non-vacuity: three threads (a failing parse, a stub, a 1005) under a ragged schedule all finish
+    with the sequential results -/
+example :
+    let js : List (Option Bytes × Nat) :=
+      [(some [], 1), (some [0xff, 0xf0, 1], 1),
+       (some [0x3e, 0xd0, 0, 3, 0, 0, 0, 0, 0, 0, 0, 0, 0, 0, 0, 0, 0, 0, 0], 1)]
+    ((poolRun Gen.tables (jobs js) ([2, 0, 2, 1, 2, 2, 7, 2, 0] ++ List.replicate 40 2)).map
+        fun t => (t.result.map Outcome.isOk)) = [some false, some true, some true] := by
+  decide +kernel
 
 /-- non-vacuity: a history with a failing and a succeeding parse -/
 example : ((runHistory Gen.tables [.msg (some []) 1, .msg (some [0xff, 0xf0, 1]) 1]).2.map Outcome.isOk) = [false, true] := by
